@@ -11,9 +11,19 @@ are taken), the REAL CheckCommand is run on each state, and the REAL `jug execut
 on dict and file stores; coqc compares the loaded task list (by interned real hash), the markers,
 the __jug__hasbarrier__ flag, the exit code of check, the final store and the number of loads with
 Model.Loader (load / check / run_phases / seq_eval).
+Long programs (loadergen.Deep: several dependency chains of 55-90 tasks, linked or independent, sinks of several
+kinds before one barrier, chains continued after it, builders with a chain and a barrier inside) are loaded and
+executed with only ~170 Python frames left, so that barrier() answers through its RecursionError fallback; their
+store states are chosen by the dependency structure (all but one sink, all but a task and everything computed
+from it, prefixes of the sequential run, holes, random).  Iterative programs (5-8 consecutive barrier/bvalue
+phases running one function) and the generated ones are executed with --nr-wait-cycles 1..3.
+Runs with tasks this worker cannot run: locks held / marked failed by others on some hashes, or task functions
+that raise (always, or the first time only) under --keep-going [--keep-failed] or without it; the final store is
+compared with Model.Loader.run_phases_l, the exit status with "a task function raised in this run".
 Search: oracles evaluated on the real objects, independent of Coq: markers record at the moment they
 run whether every task defined so far can be loaded / whether bvalue's result is the stored value;
-check vs. hasbarrier; final store vs. a plain Python sequential evaluation of the program."""
+check vs. hasbarrier; final store vs. a plain Python sequential evaluation of the program; exit status of
+`jug execute` vs. the failures raised; locks of others untouched, tasks behind them not run."""
 import itertools
 import os
 import shutil
@@ -30,8 +40,8 @@ from jug.backends.file_store import file_store
 EVIDENCE = dict(
     level='proof',
     rule='one evaluation = one (jugfile, store state) -> real jug.init + real check, or one (jugfile, start state, '
-         'backend) -> real `jug execute` to its end; non-trivial when the jugfile has at least one barrier()/bvalue(); '
-         'distinct = distinct (program term, store literal)',
+         'backend, options, locks / failing functions) -> real `jug execute` to its end; non-trivial when the jugfile '
+         'has at least one barrier()/bvalue(); distinct = distinct (program term, store literal)',
     explanation='Coq theorems over the loader / reload-loop model + differential evaluation of the model against '
                 'jug.init, CheckCommand and ExecuteCommand on generated jugfiles at every subset of earlier results',
 )
@@ -85,21 +95,28 @@ Definition chk_init (c : jprog * list iobs) : bool := let '(p, obs) := c in fora
 Definition eobs := (store * store * nat * bool)%type.
 Definition chk_run (p : jprog) (s : spine) (r : eobs) : bool :=
   let '(st0, fin, loads, ag) := r in
-  let fuel := if ag then (sbn s + 1)%nat else 12%nat in
+  let fuel := if ag then (sbn s + 1)%nat else 14%nat in
   let '(stF, exs) := run_phases fuel st0 p in
   store_eqb stF fin &&
   (if ag then Nat.eqb (List.length exs) loads && store_sub (stop_env s) fin && store_sub fin (slog s) &&
               negb (l_hasbarrier (load fin p)) && Nat.eqb (check fin p) 0
    else true).
-Definition chk_exec (c : jprog * list eobs) : bool :=
-  let '(p, runs) := c in
+(* a run in which this worker cannot run the tasks in [locks] (locked / failed by others, or raising under
+   --keep-going): start store, those tasks, final store *)
+Definition lobs := (store * list tid * store)%type.
+Definition chk_lrun (p : jprog) (r : lobs) : bool :=
+  let '(st0, locks, fin) := r in store_eqb (fst (run_phases_l locks 14 st0 p)) fin.
+Definition chk_exec (c : jprog * list eobs * list lobs) : bool :=
+  let '(p, runs, lruns) := c in
   match seq_eval p with
-  | Some s => functionalb (slog s) && forallb (chk_run p s) runs
+  | Some s => functionalb (slog s) && forallb (chk_run p s) runs && forallb (chk_lrun p) lruns
   | None => false
   end.
 '''
 INIT_TYPE = 'jprog * list iobs'
-EXEC_TYPE = 'jprog * list eobs'
+EXEC_TYPE = 'jprog * list eobs * list lobs'
+SLACK = 170                            # Python frames left to jug when a long program is loaded / executed (~4 per link)
+LARGE = 40                             # programs with more results than this get structured store states
 
 
 def tuplify(v):
@@ -141,6 +158,59 @@ def choose_subsets(keys, rng, cap):
     return out[:max(cap, 2 * n + 2)]
 
 
+def choose_subsets_large(n, deps, rng, cap):
+    """store states of a long program, chosen by its dependency structure.  n results in evaluation order,
+    deps[i] = the results i is computed from.  Everything / nothing; everything but one sink (a task nothing is
+    computed from: the end of a chain, whichever chain) and but two; everything but a task and all that is
+    computed from it (what workers leave when one of them is still at that task), two such; prefixes of the
+    sequential run; single holes; random."""
+    users = [[] for _ in range(n)]
+    for i in range(n):
+        for j in deps[i]:
+            users[j].append(i)
+    sinks = [i for i in range(n) if not users[i]]
+    full = set(range(n))
+    seen, out = set(), []
+
+    def add(ix):
+        t = tuple(sorted(ix))
+        if t not in seen:
+            seen.add(t)
+            out.append(list(t))
+
+    def closure(i):
+        got, q = {i}, [i]
+        while q:
+            x = q.pop()
+            for u in users[x]:
+                if u not in got:
+                    got.add(u)
+                    q.append(u)
+        return got
+    add(full)
+    add([])
+    for x in sinks:
+        add(full - {x})
+    pairs = list(itertools.combinations(sinks, 2))
+    rng.shuffle(pairs)
+    for a, b in pairs[:5]:
+        add(full - {a, b})
+    for _ in range(7):
+        add(full - closure(rng.randrange(n)))
+    for _ in range(3):
+        add(full - closure(rng.randrange(n)) - closure(rng.randrange(n)))
+    for _ in range(5):
+        add(range(rng.randrange(n + 1)))
+    for _ in range(4):
+        add(full - {rng.randrange(n)})
+    tries = 0
+    while len(out) < cap and tries < 4 * cap:
+        tries += 1
+        p = rng.choice([0.5, 0.9, 0.97, 0.99])
+        add([j for j in range(n) if rng.random() < p])
+    return out
+
+
 def obs_marks(log):
     return [n for (n, _, _) in log]
 
@@ -149,7 +219,8 @@ def marker_oracle(log):
     bad = []
     for n, kind, d in log:
         if kind == 'bar' and not all(d):
-            bad.append(('marker after barrier() ran while a task before it had no result', n, d))
+            bad.append(('marker after barrier() ran while a task before it had no result', n,
+                        d if len(d) <= 24 else {'tasks': len(d), 'without_result': [i for i, x in enumerate(d) if not x][:12]}))
         if kind == 'bv' and not d[0]:
             bad.append(('bvalue() returned although its argument has no stored result', n, d))
         elif kind == 'bv' and not d[1]:
@@ -157,29 +228,51 @@ def marker_oracle(log):
     return bad
 
 
+def value_of(a, vals):
+    """value of an argument descriptor given the values of the task descriptors"""
+    if isinstance(a, lg.Desc):
+        return vals[a]
+    if a[0] == 'tup':
+        return (value_of(a[1], vals), value_of(a[2], vals))
+    return a[1]
+
+
 class ProgramRun:
     """everything the tie does with one generated program"""
-    def __init__(self, ck, sc, name, prog):
-        self.ck, self.sc, self.name, self.prog = ck, sc, name, prog
+    def __init__(self, ck, sc, name, prog, slack=None):
+        self.ck, self.sc, self.name, self.prog, self.slack = ck, sc, name, prog, slack
         self.it = lg.Interner(prog)
         self.term = lg.render_coq(prog, self.it)
         self.log, self.scope, self.nb, self.seq_marks = lg.seq_oracle(prog)
         self.R = []                                   # [(hash, seq value)] in evaluation order, first occurrence
+        self.Rdesc = []
         seen = set()
         for d, v in self.log:
             h = self.it.hash_of_desc[d]
             if h not in seen:
                 seen.add(h)
                 self.R.append((h, v))
+                self.Rdesc.append(d)
+        self.large = len(self.R) > LARGE
         self.init_obs = []                            # coq literals
         self.init_meta = []
         self.exec_obs = []
         self.exec_meta = []
+        self.lrun_obs = []
+        self.lrun_meta = []
         sc.write(prog)
 
     def viol(self, what, **kw):
-        self.ck.violation(dict({'kind': 'impl-violation', 'what': what, 'program': self.name, 'prog': self.prog,
-                                'jugfile': lg.render_python(self.prog)}, **kw))
+        o = {'kind': 'impl-violation', 'what': what, 'program': self.name}
+        if self.large:
+            o['prog_flat'] = lg.flatten(self.prog)     # (JSON cannot nest a few hundred continuations)
+            o['jugfile'] = lg.render_python(self.prog)[len(lg.PRELUDE):]
+        else:
+            o['prog'] = self.prog
+            o['jugfile'] = lg.render_python(self.prog)
+        if self.slack is not None:
+            o['slack'] = self.slack
+        self.ck.violation(dict(o, **kw))
 
     def one_state(self, items, backend, root):
         """items: [(hash, value)] -> real init + check on a store holding exactly those"""
@@ -193,7 +286,7 @@ class ProgramRun:
         lg.fill_store(store, items)
         state = [[h, v] for h, v in items]
         try:
-            r = lg.real_init(self.sc, store)
+            r = lg.real_init(self.sc, store, slack=self.slack)
         except SystemExit:
             self.viol('the jugfile failed to load', store=state, backend=backend)
             ck.count('init: jugfile crashed')
@@ -208,7 +301,7 @@ class ProgramRun:
             self.viol('barrier closed although every loaded task has a result', store=state, backend=backend)
         if (code == 0) != all(loadable):
             self.viol('check exit code does not say whether every loaded task has a result', store=state,
-                      backend=backend, code=code, loadable=loadable)
+                      backend=backend, code=code, loadable=loadable if len(loadable) <= 24 else len(loadable))
         it = self.it
         lit = '(%s, ([%s], [%s], %s, %s))' % (
             lg.coq_store(items, it), '; '.join(str(it.hash_id(h)) for h in r['tasks']),
@@ -219,13 +312,29 @@ class ProgramRun:
         ck.count('init: hasbarrier' if r['hasbarrier'] else 'init: fully loaded')
         ck.count('init: backend %s' % backend)
         ck.count('check: exit %d' % code)
+        if self.slack is not None:
+            ck.count('init: long program under a low recursion limit')
         ck.distinct((self.term, lit), self.nb > 0)
         if backend == 'file':
             store.close()
 
+    def deps(self):
+        ix = dict((h, i) for i, (h, _) in enumerate(self.R))
+        out = []
+        for d in self.Rdesc:
+            out.append(sorted(set(ix[self.it.hash_of_desc[x]] for x in lg.desc_deps(d) if self.it.hash_of_desc[x] in ix)))
+        # the value of a compound is computed from what its builder returned: take the task defined just before it
+        for i, d in enumerate(self.Rdesc):
+            if d[1].startswith('comp') and i > 0:
+                out[i] = sorted(set(out[i] + [i - 1]))
+        return out
+
     def states(self, rng, cap, root):
         keys = self.R
-        subs = choose_subsets(keys, rng, cap)
+        if self.large:
+            subs = choose_subsets_large(len(keys), self.deps(), rng, cap)
+        else:
+            subs = choose_subsets(keys, rng, cap)
         for j, ix in enumerate(subs):
             items = [keys[i] for i in ix]
             if items and rng.random() < 0.18:
@@ -237,41 +346,44 @@ class ProgramRun:
             backend = 'file' if (j % 11 == 5) else 'dict'
             self.one_state(items, backend, root)
 
-    def one_exec(self, items, backend, root, agrees):
-        ck = self.ck
-        via_main = False
+    def prepare(self, items, backend, root):
         if backend == 'file':
             jd = os.path.join(root, 'jdx')
             shutil.rmtree(jd, ignore_errors=True)
             store = file_store(jd)
             lg.fill_store(store, items)
+            return store, jd
+        store = dict_store()
+        lg.fill_store(store, items)
+        return store, store
+
+    def one_exec(self, items, backend, root, agrees, nwc=1):
+        ck = self.ck
+        via_main = False
+        store, target = self.prepare(items, backend, root)
+        if backend == 'file':
             store.close()
             via_main = (ck.dist.get('execute: backend file', 0) % 2 == 0)
-            target = jd
-        else:
-            store = dict_store()
-            lg.fill_store(store, items)
-            target = store
         state = [[h, v] for h, v in items]
+        ctx = dict(start=state, backend=backend, nwc=nwc)
         try:
-            code, mlog, out = lg.real_execute(self.sc, target, via_main=via_main)
+            code, mlog, out = lg.real_execute(self.sc, target, via_main=via_main, nwc=nwc, slack=self.slack)
         except lg.HarnessError:
             raise
         except Exception as e:                     # the code under test raised: a finding, not a harness failure
-            self.viol('jug execute raised an exception', start=state, backend=backend,
-                      exception='%s: %s' % (type(e).__name__, str(e)[:300]))
+            self.viol('jug execute raised an exception', exception='%s: %s' % (type(e).__name__, str(e)[:300]), **ctx)
             ck.count('execute: raised')
             return
         if code != 0:
-            self.viol('jug execute exited with an error', start=state, backend=backend, code=code, output=out[-600:])
+            self.viol('jug execute exited with an error', code=code, output=out[-600:], **ctx)
             ck.count('execute: error exit')
             return
         if backend == 'file':
-            store = file_store(jd)
+            store = file_store(target)
         final = lg.store_items(store)
         loads = sum(1 for (n, _, _) in mlog if n == lg.TOPMARK)
         for what, n, d in marker_oracle(mlog):
-            self.viol(what, start=state, backend=backend, marker=n, detail=d, during='execute')
+            self.viol(what, marker=n, detail=d, during='execute', **ctx)
         if agrees:
             # the theorem's conclusion, evaluated in Python: nothing contradicts the sequential values, every task
             # in scope at the end of the jugfile is stored, nothing of the start store is lost
@@ -280,21 +392,24 @@ class ProgramRun:
             bad = [k for k in final if k not in exp or final[k] != exp[k]] + [k for k in top if k not in final] + \
                   [h for h, _ in items if h not in final]
             if bad:
-                self.viol('jug execute ended with a store different from the sequential evaluation', start=state,
-                          backend=backend, expected=sorted(exp.items()), observed=sorted(final.items()), loads=loads,
-                          keys=sorted(set(bad)), in_scope_at_end=top)
-        r = lg.real_init(self.sc, store)
+                self.viol('jug execute ended with a store different from the sequential evaluation',
+                          expected=sorted(exp.items())[:60], observed=sorted(final.items())[:60], loads=loads,
+                          keys=sorted(set(bad))[:40], in_scope_at_end=top[:60], **ctx)
+        r = lg.real_init(self.sc, store, slack=self.slack)
         code2 = lg.real_check(r['store'], r['space'])
         if r['hasbarrier'] or code2 != 0:
-            self.viol('after jug execute finished, a barrier is still closed or check is non-zero', start=state,
-                      backend=backend, hasbarrier=r['hasbarrier'], check=code2)
+            self.viol('after jug execute finished, a barrier is still closed or check is non-zero',
+                      hasbarrier=r['hasbarrier'], check=code2, loads=loads, **ctx)
         it = self.it
         lit = '(%s, %s, %s, %s)' % (lg.coq_store(items, it), lg.coq_store(sorted(final.items()), it), natlit(loads), boollit(agrees))
         self.exec_obs.append(lit)
         self.exec_meta.append({'start': state, 'backend': backend, 'via_main': via_main, 'final': sorted(final.items()),
-                               'loads': loads, 'agrees': agrees})
+                               'loads': loads, 'agrees': agrees, 'nwc': nwc})
         ck.count('execute: backend %s%s' % (backend, ' (CLI main)' if via_main else ''))
-        ck.count('execute: %d load(s)' % loads)
+        ck.count('execute: %d load(s)' % min(loads, 6) if loads < 6 else 'execute: 6 or more loads')
+        ck.count('execute: --nr-wait-cycles %d' % nwc)
+        if self.slack is not None:
+            ck.count('execute: long program under a low recursion limit')
         ck.distinct((self.term, lit), self.nb > 0)
         if backend == 'file':
             store.close()
@@ -302,31 +417,164 @@ class ProgramRun:
     def executes(self, rng, root, k):
         keys = self.R
         n = len(keys)
-        self.one_exec([], 'dict', root, True)
-        self.one_exec([], 'file', root, True)
+        self.one_exec([], 'dict', root, True, nwc=rng.choice([1, 2, 3]))
+        if not self.large or rng.random() < 0.34:
+            self.one_exec([], 'file', root, True, nwc=rng.choice([1, 2, 3]))
         for j in range(k):
-            ix = [i for i in range(n) if rng.random() < rng.choice([0.3, 0.6])]
+            if self.large:
+                # a long program: start from a late state (most results present), otherwise the run is one long phase
+                sub = rng.choice(choose_subsets_large(n, self.deps(), rng, 24)[2:])
+                ix = sorted(sub)
+            else:
+                ix = [i for i in range(n) if rng.random() < rng.choice([0.3, 0.6])]
             items = [keys[i] for i in ix]
             agrees = True
             if items and rng.random() < 0.25:
                 q = rng.randrange(len(items))
                 items[q] = (items[q][0], perturb(items[q][1], rng))
                 agrees = False
-            self.one_exec(items, 'file' if j % 3 == 2 else 'dict', root, agrees)
+            self.one_exec(items, 'file' if (j % 3 == 2 and not self.large) else 'dict', root, agrees, nwc=rng.choice([1, 1, 2, 3]))
+
+    # ------------------------------------------------------------------ tasks this worker cannot run
+    def lrun(self, items, backend, root, mode, chosen, nwc, keep_going=True, keep_failed=False):
+        """`jug execute` when some tasks cannot be run by this worker.
+        mode 'held' / 'failed': other workers hold / have marked failed the locks of the hashes `chosen`;
+        mode 'raises' / 'raises-once': the functions of the tasks `chosen` (indices into self.R) raise every time /
+        the first time, run with --keep-going (or not) and --keep-failed (or not)."""
+        ck, it = self.ck, self.it
+        store, target = self.prepare(items, backend, root)
+        state = [[h, v] for h, v in items]
+        vals = dict((d, v) for d, v in self.log)
+        fail, extra = None, []
+        if mode in ('held', 'failed'):
+            hashes = [self.R[i][0] for i in chosen]
+            lg.set_locks(store, held=hashes if mode == 'held' else (), failed=hashes if mode == 'failed' else ())
+            blocked = set(hashes)
+        else:
+            keys = set()
+            for i in chosen:
+                d = self.Rdesc[i]
+                keys.add((d[1], tuple(value_of(a, vals) for a in d[2])))
+            fail = dict((k, -1 if mode == 'raises' else 1) for k in keys)
+            # every task with that function and those argument values raises (equal values, different hashes)
+            blocked = set(self.it.hash_of_desc[d] for d in self.Rdesc
+                          if not d[1].startswith('comp') and (d[1], tuple(value_of(a, vals) for a in d[2])) in keys)
+            extra = (['--keep-going'] if keep_going else []) + (['--keep-failed'] if keep_failed else [])
+        if backend == 'file':
+            store.close()
+        ctx = dict(start=state, backend=backend, nwc=nwc, mode=mode, chosen=list(chosen), options=extra,
+                   blocked=sorted(blocked))
+        try:
+            code, mlog, out = lg.real_execute(self.sc, target, nwc=nwc, extra=extra, slack=self.slack, fail=fail)
+        except lg.HarnessError:
+            raise
+        except Exception as e:
+            self.viol('jug execute raised an exception', exception='%s: %s' % (type(e).__name__, str(e)[:300]), **ctx)
+            ck.count('execute: raised')
+            return
+        raised = list(self.sc.marks.RAISED)
+        if backend == 'file':
+            store = file_store(target)
+        final = lg.store_items(store)
+        held, failed = lg.list_locks(store)
+        for what, n, d in marker_oracle(mlog):
+            self.viol(what, marker=n, detail=d, during='execute', **ctx)
+        exp = dict(self.R)
+        start = dict(items)
+        agrees = all(exp.get(h) == v for h, v in items)
+        bad = [h for h in start if final.get(h) != start[h]]
+        if agrees:
+            bad += [h for h in final if h not in exp or final[h] != exp[h]]
+        if bad:
+            self.viol('jug execute lost a result of the start store or stored a value different from the sequential one',
+                      keys=sorted(set(bad))[:40], **ctx)
+        if mode in ('held', 'failed'):
+            if code != 0:
+                self.viol('jug execute exited with an error although no task function raised', code=code, output=out[-400:], **ctx)
+            ran = [h for h in blocked if h in final and h not in start]
+            if ran:
+                self.viol('a task was run although another worker holds its lock / it is marked failed', keys=sorted(ran), **ctx)
+            want = (sorted(blocked), []) if mode == 'held' else ([], sorted(blocked))
+            if (held, failed) != want:
+                self.viol('jug execute changed locks that are not its own', locks_after=[held, failed], locks_before=list(want), **ctx)
+        else:
+            failed_exit = code != 0
+            if failed_exit != bool(raised):
+                self.viol('exit status of jug execute does not say whether a task function raised in this run',
+                          code=list(code) if isinstance(code, tuple) else code, raised=[list(map(repr, r)) for r in raised][:6], **ctx)
+            if keep_going and isinstance(code, tuple):
+                self.viol('an exception of a task function left jug execute --keep-going', code=list(code), **ctx)
+            stored_blocked = [h for h in blocked if h in final and h not in start]
+            if mode == 'raises' and stored_blocked:
+                self.viol('a task whose function raises has a result', keys=sorted(stored_blocked), **ctx)
+            if keep_failed and keep_going:
+                if held or [h for h in failed if h not in blocked] or (bool(failed) != bool(raised)):
+                    self.viol('--keep-failed: the failed locks left are not those of the tasks that raised',
+                              locks_after=[held, failed], raised=len(raised), **ctx)
+            elif keep_going and (held or failed):
+                self.viol('jug execute left locks behind', locks_after=[held, failed], **ctx)
+        ck.count('blocked run: %s%s' % (mode, (' ' + ' '.join(extra)) if extra else ('' if mode in ('held', 'failed') else ' (stops at the first failure)')))
+        if raised:
+            ck.count('blocked run: a task function raised')
+        loads = sum(1 for (n, _, _) in mlog if n == lg.TOPMARK)
+        ck.count('blocked run: %s' % ('1 load' if loads == 1 else 'several loads'))
+        # the model: the blocked tasks are never run, everything else as usual (not for a function that raises only
+        # once, nor without --keep-going: the run ends at the first failure)
+        modelled = mode in ('held', 'failed') or (mode == 'raises' and keep_going)
+        meta = dict(ctx, final=sorted(final.items()), code=list(code) if isinstance(code, tuple) else code,
+                    raised=len(raised), loads=loads, keep_going=keep_going, keep_failed=keep_failed, modelled=modelled)
+        if modelled:
+            lit = '(%s, [%s], %s)' % (lg.coq_store(items, it), '; '.join(str(it.hash_id(h)) for h in sorted(blocked)),
+                                      lg.coq_store(sorted(final.items()), it))
+            self.lrun_obs.append(lit)
+            self.lrun_meta.append(meta)
+            ck.distinct((self.term, lit), self.nb > 0)
+        else:
+            ck.distinct((self.term, repr(sorted(meta.items(), key=lambda kv: kv[0]))), self.nb > 0)
+        self.nlruns = getattr(self, 'nlruns', 0) + 1
+        if backend == 'file':
+            store.close()
+
+    def blocked_runs(self, rng, root, k):
+        n = len(self.R)
+        if n == 0:
+            return
+        plain = [i for i, d in enumerate(self.Rdesc) if not d[1].startswith('comp')]
+        for j in range(k):
+            r = rng.random()
+            items = [] if rng.random() < 0.6 else [self.R[i] for i in range(n) if rng.random() < 0.4]
+            have = set(h for h, _ in items)
+            nwc = rng.choice([1, 2, 2, 3])
+            backend = 'file' if (rng.random() < 0.2 and not self.large) else 'dict'
+            if r < 0.35 or not plain:
+                chosen = sorted(rng.sample(range(n), min(n, rng.choice([1, 1, 2]))))
+                self.lrun(items, backend, root, rng.choice(['held', 'held', 'failed']), chosen, nwc)
+            else:
+                cand = [i for i in plain if self.R[i][0] not in have] or plain
+                chosen = sorted(rng.sample(cand, min(len(cand), rng.choice([1, 1, 1, 2]))))
+                mode = rng.choice(['raises', 'raises', 'raises-once'])
+                kg = rng.random() < 0.8
+                self.lrun(items, backend, root, mode, chosen, nwc, keep_going=kg, keep_failed=rng.random() < 0.5)
 
 
 def run(ck):
     ck.prove()
     ck.trusted_base = core.DEFAULT_TRUSTED_BASE + [
-        'C14: one worker (the multi-worker protocol is C01/C02); the task identifiers of the model are the real '
+        'C14: one worker (the multi-worker protocol is C01/C02; what other workers leave behind enters as store states and '
+        'as locks held / marked failed); the task identifiers of the model are the real '
         'hashes, predicted for every branch with jug.task.Task(...).hash() on stub functions (harness/loadergen.py); '
-        'values are integers mod 3 and pairs of them; task functions are rendered by hand in Gallina (fn_f ...)',
+        'values are integers mod 3 and pairs of them; task functions are rendered by hand in Gallina (fn_f ...); long '
+        'programs are run with sys.setrecursionlimit(current depth + %d) around jug.init / jug execute only' % SLACK,
     ]
     ck.assumptions = ['C14_reload_loop: the sequential evaluation succeeds (every task reference is in scope), gives one '
                       'value per identifier (checked by functionalb on every execute case), and the start store does not '
-                      'contradict it', 'C14_closed_barrier_*: Python scoping (wf [] p)']
+                      'contradict it', 'C14_closed_barrier_*: Python scoping (wf [] p)',
+                      'long programs: bvalue() and compound arguments are at most %d links away from a task whose hash is '
+                      'cached (jug itself cannot hash deeper ones: notes/strengthen_loader.txt F1)' % lg.Deep.NEAR]
     rng = ck.rng
-    nprog = ck.n(220, 2600)
+    nprog = ck.n(200, 2600)
+    ndeep = ck.n(10, 90)
+    niter = ck.n(10, 120)
     cap = ck.n(36, 80)
     nexec = ck.n(2, 4)
     home = os.environ.get('HOME')
@@ -335,7 +583,7 @@ def run(ck):
         os.environ['HOME'] = root
         sc = lg.Scratch(root)
         try:
-            progs = list(CORPUS)
+            progs = [(n, p, None) for n, p in CORPUS]
             for i in range(nprog):
                 style = i % 4
                 if style == 0:
@@ -346,23 +594,33 @@ def run(ck):
                     prog = lg.generate(rng, max_tasks=7, max_b=3, max_comp=2, branch_depth=2, compound_bias=0.6)
                 else:
                     prog = lg.generate(rng, max_tasks=4, max_b=4, max_comp=0, branch_depth=2, barrier_bias=2.5)
-                progs.append(('gen%d' % i, prog))
-            for name, prog in progs:
-                pr = ProgramRun(ck, sc, name, prog)
+                progs.append(('gen%d' % i, prog, None))
+            for i in range(niter):
+                progs.append(('iter%d' % i, lg.generate_iter(rng), None))
+            for i in range(ndeep):
+                progs.append(('deep%d' % i, lg.generate_deep(rng), SLACK))
+            for name, prog, slack in progs:
+                pr = ProgramRun(ck, sc, name, prog, slack=slack)
                 full = name in ('D18-witness',)
                 pr.states(rng, 64 if full else cap, root)
                 pr.executes(rng, root, nexec)
+                if pr.nb > 0:
+                    pr.blocked_runs(rng, root, 2 if (name.startswith('gen') and not ck.tier == 'thorough') else 3)
                 init_cases.append('(%s,\n [%s])' % (pr.term, ';\n  '.join(pr.init_obs)))
-                exec_cases.append('(%s,\n [%s])' % (pr.term, ';\n  '.join(pr.exec_obs)))
+                exec_cases.append('(%s,\n [%s],\n [%s])' % (pr.term, ';\n  '.join(pr.exec_obs), ';\n  '.join(pr.lrun_obs)))
                 init_runs.append(pr)
                 exec_runs.append(pr)
                 ck.count('programs')
-                ck.count('programs with %d barrier/bvalue on the sequential path' % min(pr.nb, 4))
+                ck.count('programs with %d barrier/bvalue on the sequential path' % pr.nb if pr.nb < 4 else
+                         'programs with 4 or more barrier/bvalue on the sequential path')
+                if pr.large:
+                    ck.count('programs with long dependency chains')
                 if any(d[1].startswith('comp') for d, _ in pr.log):
                     ck.count('programs with a compound on the sequential path')
-                if len(ck.samples) < 4 and pr.nb >= 2:
+                if len(ck.samples) < 4 and pr.nb >= 2 and not pr.large:
                     ck.sample({'jugfile': lg.render_python(prog)[len(lg.PRELUDE):], 'sequential_values': [[repr(d), v] for d, v in pr.log],
-                               'states_tried': len(pr.init_obs), 'first_states': pr.init_meta[:3], 'executes': pr.exec_meta[:2]})
+                               'states_tried': len(pr.init_obs), 'first_states': pr.init_meta[:3], 'executes': pr.exec_meta[:2],
+                               'blocked_runs': pr.lrun_meta[:1]})
             jugrun.fresh()
         finally:
             sc.close()
@@ -370,13 +628,14 @@ def run(ck):
                 os.environ.pop('HOME', None)
             else:
                 os.environ['HOME'] = home
-    nobs = sum(len(pr.init_obs) + len(pr.exec_obs) for pr in init_runs)
-    fails = ck.cases('init', lg.COQ_IMPORTS, INIT_TYPE, 'chk_init', init_cases, shard=12, preamble=PREAMBLE)
+    nobs = sum(len(pr.init_obs) + len(pr.exec_obs) + getattr(pr, 'nlruns', 0) for pr in init_runs)
+    # long programs: one per shard (their literals are large), the others 12 per shard
+    fails = cases_by_size(ck, 'init', INIT_TYPE, 'chk_init', init_cases, init_runs)
     for i in (fails or [])[:3]:
         pin_init(ck, init_runs[i])
     if fails and len(fails) > 3:
         ck.count('init: further programs on which model and jug disagree (not pinned)', len(fails) - 3)
-    fails = ck.cases('exec', lg.COQ_IMPORTS, EXEC_TYPE, 'chk_exec', exec_cases, shard=12, preamble=PREAMBLE)
+    fails = cases_by_size(ck, 'exec', EXEC_TYPE, 'chk_exec', exec_cases, exec_runs)
     for i in (fails or [])[:3]:
         pin_exec(ck, exec_runs[i])
     if fails and len(fails) > 3:
@@ -384,30 +643,64 @@ def run(ck):
     ck.case_total = nobs                   # evaluations = (jugfile, store state) pairs, not programs
 
 
+def cases_by_size(ck, name, typ, chk, cases, runs):
+    """small programs in shards of 12, long ones in shards of 1 (evaluated in parallel); failing indices into `cases`"""
+    small = [i for i, pr in enumerate(runs) if not pr.large]
+    big = [i for i, pr in enumerate(runs) if pr.large]
+    out, broken = [], False
+    f1 = ck.cases(name, lg.COQ_IMPORTS, typ, chk, [cases[i] for i in small], shard=12, preamble=PREAMBLE)
+    if f1 is None:
+        broken = True
+    else:
+        out += [small[j] for j in f1]
+    if big:
+        f2 = ck.cases(name + '_long', lg.COQ_IMPORTS, typ, chk, [cases[i] for i in big], shard=1, preamble=PREAMBLE)
+        if f2 is None:
+            broken = True
+        else:
+            out += [big[j] for j in f2]
+    return None if broken else sorted(out)
+
+
 def pin_init(ck, pr):
     """which store states of this program disagree with the model"""
     singles = ['(%s,\n [%s])' % (pr.term, o) for o in pr.init_obs]
     fails = ck.cases('init_pin', lg.COQ_IMPORTS, INIT_TYPE, 'chk_init', singles, shard=100, preamble=PREAMBLE)
     for j in (fails if fails else [0])[:3]:
-        ck.violation({'kind': 'correspondence', 'what': 'loader: model and jug.init / check disagree', 'program': pr.name,
-                      'prog': pr.prog, 'jugfile': lg.render_python(pr.prog), 'interning': pr.it.table(),
-                      'observed': pr.init_meta[j], 'store': pr.init_meta[j]['store'], 'backend': pr.init_meta[j]['backend'],
-                      'coq_program': pr.term, 'coq_observation': pr.init_obs[j]})
+        ck.violation(dict(prog_fields(pr), **{
+            'kind': 'correspondence', 'what': 'loader: model and jug.init / check disagree', 'program': pr.name,
+            'observed': pr.init_meta[j] if not pr.large else dict(pr.init_meta[j], tasks=len(pr.init_meta[j]['tasks']), names=None),
+            'store': pr.init_meta[j]['store'], 'backend': pr.init_meta[j]['backend'],
+            'coq_observation': pr.init_obs[j] if not pr.large else '(long)'}))
+
+
+def prog_fields(pr):
+    if pr.large:
+        return {'prog_flat': lg.flatten(pr.prog), 'jugfile': lg.render_python(pr.prog)[len(lg.PRELUDE):], 'slack': pr.slack}
+    return {'prog': pr.prog, 'jugfile': lg.render_python(pr.prog), 'interning': pr.it.table(), 'coq_program': pr.term,
+            'slack': pr.slack}
 
 
 def pin_exec(ck, pr):
-    singles = ['(%s,\n [%s])' % (pr.term, o) for o in pr.exec_obs]
+    singles = ['(%s,\n [%s],\n [])' % (pr.term, o) for o in pr.exec_obs] + ['(%s,\n [],\n [%s])' % (pr.term, o) for o in pr.lrun_obs]
+    metas = [('exec', m) for m in pr.exec_meta] + [('blocked', m) for m in pr.lrun_meta]
     fails = ck.cases('exec_pin', lg.COQ_IMPORTS, EXEC_TYPE, 'chk_exec', singles, shard=100, preamble=PREAMBLE)
     for j in (fails if fails else [0])[:3]:
-        ck.violation({'kind': 'correspondence', 'what': 'reload loop: model and jug execute disagree', 'program': pr.name,
-                      'prog': pr.prog, 'jugfile': lg.render_python(pr.prog), 'interning': pr.it.table(),
-                      'observed': pr.exec_meta[j], 'start': pr.exec_meta[j]['start'], 'backend': pr.exec_meta[j]['backend'],
-                      'coq_program': pr.term, 'coq_observation': pr.exec_obs[j]})
+        kind, m = metas[j]
+        o = dict(prog_fields(pr), **{
+            'kind': 'correspondence', 'program': pr.name, 'observed': m, 'start': m['start'], 'backend': m['backend'],
+            'nwc': m.get('nwc', 1), 'coq_observation': singles[j][len(pr.term) + 3:] if not pr.large else '(long)'})
+        if kind == 'exec':
+            o['what'] = 'reload loop: model and jug execute disagree'
+        else:
+            o['what'] = 'reload loop with tasks this worker cannot run: model and jug execute disagree'
+            o['blocked_run'] = {'mode': m['mode'], 'chosen': m['chosen'], 'keep_going': m['keep_going'], 'keep_failed': m['keep_failed']}
+        ck.violation(o)
 
 
 # ---------------------------------------------------------------------------- replay
 def replay(obj):
-    prog = obj['prog']
+    prog = obj['prog'] if obj.get('prog') else lg.unflatten(obj['prog_flat'])
     rc = 0
     with jugrun.scratch_dir('jugv_c14r_') as root:
         home = os.environ.get('HOME')
@@ -415,19 +708,37 @@ def replay(obj):
         sc = lg.Scratch(root)
         try:
             ck = lg.ReplayCheck('C14', obj.get('seed', 0))
-            pr = ProgramRun(ck, sc, obj.get('program', 'replay'), prog)
-            print(lg.render_python(prog)[len(lg.PRELUDE):])
-            print('sequential values:', [(pr.it.desc_id(d), v) for d, v in pr.log])
-            if 'start' in obj:
+            pr = ProgramRun(ck, sc, obj.get('program', 'replay'), prog, slack=obj.get('slack'))
+            if pr.large:
+                print('(long program: %d statements, %d results on the sequential path; recursion slack %s)'
+                      % (lg.nstatements(prog), len(pr.R), pr.slack))
+            else:
+                print(lg.render_python(prog)[len(lg.PRELUDE):])
+                print('sequential values:', [(pr.it.desc_id(d), v) for d, v in pr.log])
+            short = (lambda kv: kv) if not pr.large else (lambda kv: '%d results' % len(kv))
+            br = obj.get('blocked_run') or ({'mode': obj['mode'], 'chosen': obj['chosen'],
+                                             'keep_going': '--keep-going' in obj.get('options', []),
+                                             'keep_failed': '--keep-failed' in obj.get('options', [])} if 'mode' in obj else None)
+            if br is not None:
+                items = [(h, tuplify(v)) for h, v in obj['start']]
+                pr.lrun(items, obj.get('backend', 'dict'), root, br['mode'], br['chosen'], obj.get('nwc', 1),
+                        keep_going=br.get('keep_going', True), keep_failed=br.get('keep_failed', False))
+                print('blocked run (%s) from' % br['mode'], short([(pr.it.hash_id(h), v) for h, v in items]), '->',
+                      [dict((k, m[k]) for k in ('code', 'raised', 'loads', 'blocked')) for m in pr.lrun_meta[-1:]] or 'see the violations')
+                cases, typ, chk = ['(%s,\n [],\n [%s])' % (pr.term, o) for o in pr.lrun_obs], EXEC_TYPE, 'chk_exec'
+            elif 'start' in obj:
                 items = [(h, tuplify(v)) for h, v in obj['start']]
                 agrees = all(dict(pr.R).get(h) == v for h, v in items)
-                pr.one_exec(items, obj.get('backend', 'dict'), root, agrees)
-                print('execute from', [(pr.it.hash_id(h), v) for h, v in items], '->', pr.exec_meta[-1:] or 'failed')
-                cases, typ, chk = ['(%s,\n [%s])' % (pr.term, o) for o in pr.exec_obs], EXEC_TYPE, 'chk_exec'
+                pr.one_exec(items, obj.get('backend', 'dict'), root, agrees, nwc=obj.get('nwc', 1))
+                print('execute from', short([(pr.it.hash_id(h), v) for h, v in items]), '->',
+                      [dict((k, (m[k] if k != 'final' else short(m[k]))) for k in ('loads', 'final', 'nwc')) for m in pr.exec_meta[-1:]] or 'failed')
+                cases, typ, chk = ['(%s,\n [%s],\n [])' % (pr.term, o) for o in pr.exec_obs], EXEC_TYPE, 'chk_exec'
             else:
                 items = [(h, tuplify(v)) for h, v in obj.get('store', [])]
                 pr.one_state(items, obj.get('backend', 'dict'), root)
-                print('init against', [(pr.it.hash_id(h), v) for h, v in items], '->', pr.init_meta[-1:] or 'failed')
+                print('init against', short([(pr.it.hash_id(h), v) for h, v in items]), '->',
+                      [dict((k, (m[k] if (k != 'tasks' or not pr.large) else len(m[k]))) for k in ('tasks', 'marks', 'hasbarrier', 'check'))
+                       for m in pr.init_meta[-1:]] or 'failed')
                 cases, typ, chk = ['(%s,\n [%s])' % (pr.term, o) for o in pr.init_obs], INIT_TYPE, 'chk_init'
             jugrun.fresh()
         finally:
@@ -438,11 +749,14 @@ def replay(obj):
                 os.environ['HOME'] = home
     if ck.found:
         for o in ck.found:
-            print('VIOLATED on the real code:', o.get('what'), dict((k, o[k]) for k in ('marker', 'detail', 'code', 'loadable', 'expected', 'observed') if k in o))
+            print('VIOLATED on the real code:', o.get('what'), dict((k, o[k]) for k in ('marker', 'detail', 'code', 'loadable', 'raised', 'keys', 'locks_after', 'loads') if k in o))
         rc = 1
     mrc, out = core.make(['Model/Loader.vo'])
     fails = ck.cases('replay', lg.COQ_IMPORTS, typ, chk, cases, preamble=PREAMBLE) if (mrc == 0 and cases) else None
-    print('model vs observed:', 'agree' if fails == [] else ('DISAGREE' if fails else 'could not evaluate'))
-    if fails != []:
-        rc = 1
+    if not cases:
+        print('model vs observed: (this kind of run has no model case)')
+    else:
+        print('model vs observed:', 'agree' if fails == [] else ('DISAGREE' if fails else 'could not evaluate'))
+        if fails != []:
+            rc = 1
     return rc
